@@ -180,6 +180,11 @@ func (p *Program) keepsElemsCheck(callee *ssa.Function, tname string) string {
 			b, ok := t.Underlying().(*types.Basic)
 			return ok && b.Kind() == types.Uint8
 		}
+		if tname == "int" {
+			// any integer element other than a byte (local arrays such as [14]int, []int)
+			b, ok := t.Underlying().(*types.Basic)
+			return ok && b.Info()&types.IsInteger != 0 && b.Kind() != types.Uint8
+		}
 		if pt, ok := t.(*types.Pointer); ok && strings.HasPrefix(tname, "*") {
 			n, ok := pt.Elem().(*types.Named)
 			return ok && n.Obj().Name() == tname[1:]
